@@ -107,4 +107,23 @@ CopySem(f, dst, src) ==
   ELSE IF dst = src THEN f
   ELSE IF ~NameOK(dst) THEN ErrFrame
   ELSE SetColumn(f, [ColOf(f, src) EXCEPT !.name = dst])
+
+(***************************************************************************)
+(* Rolling: the configuration is validated (window size positive; position *)
+(* center / start / end; not both an interval function and a window size), *)
+(* the source column must exist - and then, in this version of the library, *)
+(* every column type's Rolling is the identity: the destination receives   *)
+(* the source column unchanged.  a = [dst, src, window (0 = default),      *)
+(* interval (0/1), pos (bytes, <<>> = default)]                            *)
+(***************************************************************************)
+RollingCfgBad(a) ==
+  \/ a.window < 0
+  \/ (a.pos # <<>> /\ a.pos \notin {<<99, 101, 110, 116, 101, 114>>, <<115, 116, 97, 114, 116>>, <<101, 110, 100>>})
+  \/ (a.interval = 1 /\ a.window \notin {0, 1})
+RollingSem(f, a) ==
+  IF f.err THEN f
+  ELSE IF RollingCfgBad(a) THEN ErrFrame
+  ELSE IF ~HasCol(f, a.src) THEN ErrFrame
+  ELSE IF ~NameOK(a.dst) THEN ErrFrame
+  ELSE SetColumn(f, [ColOf(f, a.src) EXCEPT !.name = a.dst])
 =============================================================================
